@@ -45,7 +45,8 @@ TOL = 1e-9
 def BOUNDS(tier):
     return {"zoo_members": "ref, block, distorted, affine, renum, extra, (curved), (strip, aniso in thorough)",
             "lagrange": "dim 2 orders 2..4; dim 3 orders 2..3 (4 in thorough)",
-            "rigid_motions": "24 cube rotations + 2 generic (thorough) / 5 + 1 (quick)"}
+            "rigid_motions": "24 cube rotations + 2 generic (thorough) / 5 + 1 (quick)", "length_units": "x 1e-3, x 1e3 (distorted member)",
+            "refresh_histories": "depth 2 over 3 in-place point changes x 7 refresh forms (reload / copy / update callback / hess)", "lagrange_not_permuted": "orders 2..3"}
 
 
 HESS_KINDS = ("line", "quad", "quad8", "hexahedron", "triangle", "triangle-mini", "tetra", "tetra-mini")
